@@ -28,3 +28,5 @@ for p in "$@"; do
   ./check $p --tier quick 2>&1 | tail -2
 done
 git -C /repo checkout -- .
+# leave the harness binary in the state of the unchanged tree
+(cd /verif/harness && cargo build --offline --bin gse_ops > /dev/null 2>&1)
